@@ -193,7 +193,7 @@ def stream_family(tier, seed):
         st = {"mode": "text", "tty": False, "kind": kind, "fenc": fenc, "newline": newline, "content": runs}
         text_len = len(ref_text(st, content_of(runs)).encode(enc, "replace"))
         evs = [[["exit", 0]], [["in_wait", text_len], ["exit", 0]], [["in_wait", text_len // 2], ["exit", i % 2]]][i % 3]
-        if len(content_of(runs)) > 1500:
+        if len(content_of(runs)) > 800:
             # long inputs: the command finishes at once (while the main thread still polls, forwarding is
             # slower; every wait of the driver stays far below its bound also on a loaded machine)
             evs = [["exit", i % 2]]
@@ -233,7 +233,7 @@ def stream_family(tier, seed):
         for k in range(4):
             for kind in ("file", "pipe", "proxy", "memory"):
                 for ch in ("\u00e9", "\u20ac", "\U0001F600"):
-                    for total in (L1, L2, L4, L8, 2 * L8):
+                    for total in (L1, L2, L4, L8) + ((2 * L8,) if len(ch.encode()) == 4 else ()):
                         add(kind, sweep_runs(ch, k, total), newline=("raw", "universal")[k % 2])
     return out
 
@@ -336,7 +336,7 @@ class C13(Prop):
         evs = rng.choice([[["exit", rng.choice([0, 0, 1])]],
                           [["in_wait", text_len], ["exit", 0]],
                           [["in_wait", rng.randrange(text_len + 1)], ["exit", 0]]])
-        if len(content_of(runs)) > 1500:
+        if len(content_of(runs)) > 800:
             evs = [["exit", rng.choice([0, 1])]]          # long inputs: see stream_family
         case = {"events": evs, "enc": enc, "in": st,
                 "pty": rng.random() < 0.2, "hide": rng.choice(["both", "both", "none", "stdout"]),
